@@ -1,4 +1,4 @@
-import Vgi.Model.Wire
+import Vgi.Model.WireScript
 /-!
 Line-protocol driver for C01 (see `harness/c01.go`).
 
@@ -16,64 +16,7 @@ Answer: what the four readers return on that body:
   <meta>   = - | hexkey=hexval,...
 -/
 namespace Vgi.Drive.C01
-open Vgi Vgi.Wire
-
-def parseHex (s : String) : Option Bytes := bytesOfHexAux s.toList
-
-def parseField (s : String) : Option Field :=
-  match s.splitOn ":" with
-  | [n, t, nl] => do
-    let nb ← parseHex n
-    let tb ← parseHex t
-    let nu ← (if nl = "0" then some false else if nl = "1" then some true else none)
-    pure ⟨nb, tb, nu⟩
-  | _ => none
-
-def parseSchema (s : String) : Option Schema :=
-  if s = "-" then some [] else (s.splitOn ",").mapM parseField
-
-def parseCells (s : String) : Option (List Bytes) :=
-  if s = "-" then some [] else (s.splitOn ";").mapM parseHexArg
-
-def parseKV (s : String) : Option (Bytes × Bytes) :=
-  match s.splitOn "=" with
-  | [k, v] => do
-    let kb ← parseHex k
-    let vb ← parseHex v
-    pure (kb, vb)
-  | _ => none
-
-def parseMeta (s : String) : Option Meta :=
-  if s = "-" then some [] else (s.splitOn ",").mapM parseKV
-
-def parseBatches : List String → Option (List Batch × List String)
-  | "B" :: r :: c :: m :: rest => do
-    let rows ← r.toNat?
-    let cells ← parseCells c
-    let md ← parseMeta m
-    let (bs, rest') ← parseBatches rest
-    pure (⟨rows, md, cells⟩ :: bs, rest')
-  | "K" :: t :: c :: rest => do
-    let tb ← parseHexArg t
-    let cb ← parseHexArg c
-    let (bs, rest') ← parseBatches rest
-    pure (stateTokenBatch tb cb :: bs, rest')
-  | ws => some ([], ws)
-termination_by ws => ws.length
-decreasing_by all_goals (simp_wf; omega)
-
-def parseStreams : Nat → List String → Option (List Stream × Bool)
-  | _, [] => some ([], false)
-  | _, ["J"] => some ([], true)
-  | 0, _ => none
-  | fuel + 1, tag :: sch :: rest =>
-    if tag = "S" ∨ tag = "SX" then do
-      let schema ← parseSchema sch
-      let (bs, rest') ← parseBatches rest
-      let (more, junk) ← parseStreams fuel rest'
-      pure (⟨schema, bs, tag = "SX"⟩ :: more, junk)
-    else none
-  | _, _ => none
+open Vgi Vgi.Wire Vgi.WireScript
 
 /-! rendering -/
 
